@@ -389,7 +389,7 @@ var mandatory = map[string][]string{
 	"C01": {"backing", "escrow-positive", "pending-and-earned"},
 	"C02": {"R1-consumer-delta", "R2-good-response", "R3-malformed-output", "R4-expiry", "R5-withdraw", "R6-settled"},
 	"C03": {"custody", "S1-bind", "S1-top-up", "S2-refund-preconditions"},
-	"C04": {"slash-amount", "slash-events", "no-failure-no-slash"},
+	"C04": {"slash-amount", "no-failure-no-slash"},
 	"C05": {"authority", "wrong-signer-rejected", "debits-only-signer", "block-debits-only-issuing-consumers"},
 	"C06": {"issued", "skipped", "paused-for-funds", "fee-within-cap"},
 	"C07": {"fee-follows-pricing", "fee-floored-to-one", "volume-plus-one"},
